@@ -169,23 +169,79 @@ fn components(nmax: usize) -> impl Strategy<Value = AbsGraph> {
 
 /// The general framework generator: shapes mixed by construction.
 pub fn graph(nmax: usize) -> BoxedStrategy<AbsGraph> {
+    if nmax < 6 {
+        return prop_oneof![
+            4 => er(0, nmax),
+            3 => components(nmax),
+            2 => cycle_with_chords(nmax),
+            1 => symmetric_clusters(nmax),
+            2 => fan_in(nmax),
+        ]
+        .boxed();
+    }
     prop_oneof![
         4 => er(0, nmax),
         3 => components(nmax),
         2 => cycle_with_chords(nmax),
         1 => symmetric_clusters(nmax),
         2 => fan_in(nmax),
+        1 => role_gadget(nmax),
     ]
     .boxed()
 }
 
+/// Graphs in which the semantic roles differ as much as they can: the textbook gadget whose sink is in
+/// every preferred extension without being ideal (0 <-> 1, both attack 2, 2 attacks 3), an unattacked
+/// argument starting a chain (grounded members that are defended rather than unattacked), the chain
+/// optionally attacking the gadget (one connected component), perturbed by up to four generated attacks
+/// and declared in any order by the presentation. Random graphs of this size almost never separate
+/// "in every preferred extension", "ideal" and "grounded" like this.
+pub fn role_gadget(nmax: usize) -> BoxedStrategy<AbsGraph> {
+    (6usize..=nmax.max(6), vec((any::<u16>(), any::<u16>()), 0..=4), 0u8..4, any::<u16>())
+        .prop_map(|(n, extra, link, perm)| {
+            let mut att: Vec<(usize, usize)> = vec![(0, 1), (1, 0), (0, 2), (1, 2), (2, 3), (4, 5)];
+            // the chain goes on as far as there are arguments: 4 -> 5 -> 6 -> 7 ...
+            for i in 6..n.min(9) {
+                att.push((i - 1, i));
+            }
+            match link {
+                1 => att.push((5, 3)),
+                2 => att.push((n.min(9) - 1, 2)),
+                3 => att.push((3, 5)),
+                _ => {}
+            }
+            for (a, b) in extra {
+                att.push((idx(a, n), idx(b, n)));
+            }
+            // a generated relabelling, so that the roles do not sit at fixed indices
+            let mut order: Vec<usize> = (0..n).collect();
+            let mut z = perm as usize + 1;
+            for i in (1..n).rev() {
+                z = z.wrapping_mul(31).wrapping_add(17);
+                order.swap(i, z % (i + 1));
+            }
+            AbsGraph { n, att: att.into_iter().map(|(a, b)| (order[a] as u8, order[b] as u8)).collect() }
+        })
+        .boxed()
+}
+
 /// Connected-biased generator (single shapes only).
 pub fn graph_single(nmax: usize) -> BoxedStrategy<AbsGraph> {
+    if nmax < 6 {
+        return prop_oneof![
+            4 => er(1, nmax),
+            2 => cycle_with_chords(nmax),
+            1 => symmetric_clusters(nmax),
+            2 => fan_in(nmax),
+        ]
+        .boxed();
+    }
     prop_oneof![
-        4 => er(1, nmax),
-        2 => cycle_with_chords(nmax),
-        1 => symmetric_clusters(nmax),
-        2 => fan_in(nmax),
+        8 => er(1, nmax),
+        4 => cycle_with_chords(nmax),
+        2 => symmetric_clusters(nmax),
+        4 => fan_in(nmax),
+        1 => role_gadget(nmax),
     ]
     .boxed()
 }
